@@ -97,6 +97,16 @@ MemFits(O, p)   == \A n \in NodesOf(p) : SumOver(OnNode(p, n), LAMBDA i : p[i].m
 CanTake(O, p) == /\ SelfDisjoint(p) /\ CoresFree(O, p) /\ GpusFree(O, p)
                  /\ LfsFits(O, p) /\ MemFits(O, p)
 
+(* ---- a placement decided by the application (task description carries slots): it is the
+        requested shape; usable at all iff every named resource exists, none is blocked and
+        no rank of the task overlaps another one ---------------------------------------- *)
+SupInRange(p) == \A i \in Idx(p) : /\ p[i].node \in Node /\ p[i].cores \subseteq Core
+                                    /\ SlotGpuSet(p[i]) \subseteq Gpu
+SupUsable(p)  == /\ SupInRange(p)
+                 /\ \A i \in Idx(p) : /\ p[i].cores \cap BlockedCores = {}
+                                       /\ SlotGpuSet(p[i]) \cap BlockedGpus = {}
+                 /\ SelfDisjoint(p)
+
 (* ---- effect of _change_slot_states ------------------------------------ *)
 \* as coded: every listed core / gpu gets the new marker (a fractional share
 \* marks the whole GPU), lfs / mem are debited / credited per slot.
